@@ -128,8 +128,52 @@ func evalTSP(tc tspCase) *Failure {
 	return nil
 }
 
+// evalTSPAfterFailure: a call whose writer fails (must report it), immediately followed by a fault-free call
+// on another problem, whose output must be exactly that problem (no state may survive the failed call).
+func evalTSPAfterFailure(first, second tspCase) *Failure {
+	if f := evalTSP(first); f != nil {
+		return f
+	}
+	if f := evalTSP(second); f != nil {
+		f.Class = "tsp/after-a-failed-call/" + f.Class[len("tsp/"):]
+		f.What = fmt.Sprintf("after LIB(n=%d) with a write failing (%s at write %d): %s", first.N, first.Kind, first.FaultAt, f.What)
+		f.Kind = "tsp-pair"
+		f.Replay = []tspCase{first, second}
+		return f
+	}
+	return nil
+}
+
 func runC20(c *Ctx) {
 	c.Level = "fault_enumeration"
+	// histories first, sequentially (state left behind by a failed call would be process-global)
+	{
+		var pairs int64
+		for n := 0; n <= 3; n++ {
+			L := n * (n - 1) / 2
+			w := make([]int, L)
+			for i := range w {
+				w[i] = 100 + i
+			}
+			for p := 0; p < 12+6*n; p++ {
+				for _, kind := range []string{"perm-zero", "perm-short", "transient-zero", "transient-short"} {
+					first := tspCase{N: n, Weights: w, FaultAt: p, Kind: kind}
+					for _, n2 := range []int{0, 2, 4} {
+						w2 := make([]int, n2*(n2-1)/2)
+						for i := range w2 {
+							w2[i] = -7 - i
+						}
+						second := tspCase{N: n2, Weights: w2}
+						for rep := 0; rep < 3; rep++ {
+							c.Check(func() *Failure { return evalTSPAfterFailure(first, second) })
+							pairs++
+						}
+					}
+				}
+			}
+		}
+		c.SetCount("failed_call_then_clean_call_pairs", pairs)
+	}
 	c.Rule = "fault-free runs: every weight function over a value set containing MinInt64/MaxInt64/negatives for small n, output parsed back line by line; fault runs: for each (n, weight function over a 3-value set) the W underlying Write calls of the fault-free run are counted, then every p in [0,W) x {permanent, transient} x {zero count, short count} is injected through the io.Writer and LIB must return non-nil; non-trivial = fault run whose fault fired, or fault-free run with n >= 2"
 	// fault-free, all weight functions
 	type dom struct {
@@ -164,7 +208,7 @@ func runC20(c *Ctx) {
 		c.Count(fmt.Sprintf("fault_free_n%d_values%d", d.n, len(d.vals)), total)
 	}
 	// larger dimensions (multi-digit row counts and column alignment): a few structured weight functions
-	for _, n := range []int{9, 10, 11, 12, 37, 100, 101} {
+	for _, n := range []int{9, 10, 11, 12, 37, 100, 101, 128, 129, 130, 257} {
 		L := n * (n - 1) / 2
 		for variant := 0; variant < 4; variant++ {
 			w := make([]int, L)
@@ -183,18 +227,27 @@ func runC20(c *Ctx) {
 			tc := tspCase{N: n, Weights: w}
 			c.Check(func() *Failure { return evalTSP(tc) })
 			c.Nontrivial(1)
-			if n <= 12 {
-				// and every fault position for this run
+			if n <= 12 || (variant == 1 && n >= 128 && n <= 130) {
+				// fault positions for this run: all of them for n <= 12; for n around 128 the first and last 12 writes
+				// and every 61st in between (stated bound)
 				var calls [][2]int
 				rec := &faultWriter{}
 				if tsp.LIB(rec, n, tspWeightsFn(tc, &calls)) == nil {
+					var ps []int
 					for p := 0; p < rec.writes; p++ {
-						for _, kind := range []string{"perm-zero", "transient-zero", "transient-short"} {
-							ft := tspCase{N: n, Weights: w, FaultAt: p, Kind: kind}
-							c.Check(func() *Failure { return evalTSP(ft) })
-							c.Nontrivial(1)
+						if n <= 12 || p < 12 || p >= rec.writes-12 || p%61 == 0 {
+							ps = append(ps, p)
 						}
 					}
+					c.parFor(int64(len(ps)), 1, func(lo, hi int64) {
+						for _, p := range ps[lo:hi] {
+							for _, kind := range []string{"perm-zero", "transient-zero", "transient-short"} {
+								ft := tspCase{N: n, Weights: w, FaultAt: p, Kind: kind}
+								c.Check(func() *Failure { return evalTSP(ft) })
+								c.Nontrivial(1)
+							}
+						}
+					})
 				}
 			}
 		}
@@ -265,6 +318,18 @@ func runC20(c *Ctx) {
 }
 
 func replayC20(kind string, raw json.RawMessage) *Failure {
+	if kind == "tsp-pair" {
+		var pair []tspCase
+		if err := json.Unmarshal(raw, &pair); err != nil || len(pair) != 2 {
+			return &Failure{Class: "replay/bad-file", What: fmt.Sprint(err)}
+		}
+		for i := 0; i < 30; i++ {
+			if f := evalTSPAfterFailure(pair[0], pair[1]); f != nil {
+				return f
+			}
+		}
+		return nil
+	}
 	var tc tspCase
 	if err := json.Unmarshal(raw, &tc); err != nil {
 		return &Failure{Class: "replay/bad-file", What: err.Error()}
